@@ -7,7 +7,7 @@ from ..monitors import FileLog
 
 PLAN = {
     "quick": {"shards": 8, "cases": 1500, "min_nontrivial": 6000, "budget_s": 300},
-    "thorough": {"shards": 16, "cases": 9000, "min_nontrivial": 20000, "budget_s": 1200},
+    "thorough": {"shards": 16, "cases": 12000, "min_nontrivial": 67200, "budget_s": 1500},
 }
 RULE = ("a case is a history of 2-40 steps {new KeyFile object, enter, exit (properly nested), encrypt (xor/aes/best), "
         "decrypt, external change of the file while no context is open} over up to 3 objects for one path, starting "
